@@ -251,18 +251,37 @@ func TestC06(t *testing.T) {
 				silent[rng.Range(c.Min, c.Max)] = true
 			}
 			delete(silent, destHop)
+			// duplicates of some router replies, delivered later (for the serial engine: while it waits for
+			// a later TTL or sleeps between two probes) — emission must stay ordered and paced
+			dup := map[int]time.Duration{}
+			if rng.Chance(1, 2) {
+				for k := rng.Range(1, 3); k > 0; k-- {
+					dup[rng.Range(c.Min, c.Max)] = time.Duration(rng.Range(1, 80))*time.Millisecond + sendDelay/2 + time.Duration(rng.Range(1, 999))*time.Microsecond
+				}
+			}
 			var writes []wireWrite
 			var runErr error
 			var hops []*common.ProbeResponse
-			var destSeenAt time.Duration = -1
+			var destSeenAt time.Duration = -1 // the destination answer was DELIVERED to the capture handle
+			var destReadAt time.Duration = -1 // the engine SAW it (ReceiveProbe returned it)
 			synctest.Test(t, func(t *testing.T) {
 				wire := newMemWire()
 				wire.blockWhenEmpty = true
-				d, err := newDriver(c, wire)
+				inner, err := newDriver(c, wire)
 				if err != nil {
 					t.Fatal(err)
 				}
-				net := &scriptedNet{cfg: c, destHop: destHop, silent: silent, wire: wire,
+				d := &c05Tap{inner: inner, start: wire.log.start}
+				defer func() {
+					d.mu.Lock()
+					for _, a := range d.accepts {
+						if a.Dest && destReadAt < 0 {
+							destReadAt = a.ReadAt
+						}
+					}
+					d.mu.Unlock()
+				}()
+				net := &scriptedNet{cfg: c, destHop: destHop, silent: silent, wire: wire, dup: dup,
 					delay: func(ttl int) time.Duration {
 						return time.Duration(base+(ttl*jit)%97)*time.Millisecond + time.Duration(ttl*13+7)*time.Microsecond
 					}}
@@ -293,7 +312,7 @@ func TestC06(t *testing.T) {
 					}
 				}
 			})
-			replay := map[string]any{"variant": v, "config": c.oraclePrefix(), "dest_hop": destHop, "send_delay": sendDelay.String(), "silent": fmt.Sprint(silent)}
+			replay := map[string]any{"variant": v, "config": c.oraclePrefix(), "dest_hop": destHop, "send_delay": sendDelay.String(), "silent": fmt.Sprint(silent), "duplicates_after": fmt.Sprint(dup)}
 			var ttls []int
 			bad := ""
 			for k, w := range writes {
@@ -315,13 +334,27 @@ func TestC06(t *testing.T) {
 				bad = "engine run failed: " + runErr.Error()
 			}
 			after := 0
+			if destReadAt >= 0 {
+				afterRead := 0
+				for _, w := range writes {
+					if w.At > destReadAt {
+						afterRead++
+					}
+				}
+				if afterRead > 1 {
+					bad = fmt.Sprintf("%d probes emitted after the engine saw the destination answer at %s (at most one in flight allowed)", afterRead, destReadAt)
+				}
+			}
 			if destSeenAt >= 0 {
 				for _, w := range writes {
 					if w.At > destSeenAt {
 						after++
 					}
 				}
-				if after > 1 {
+				// without late duplicates the engine is reading whenever a reply arrives: delivered = seen.
+				// (A late duplicate read by the serial engine ends a window, and the answer waits in the
+				// queue while the next probe goes out: then only the instant the engine saw it counts.)
+				if after > 1 && len(dup) == 0 {
 					bad = fmt.Sprintf("%d probes emitted after the destination answer was delivered at %s (at most one in flight allowed)", after, destSeenAt)
 				}
 			} else if len(writes) != c.Max-c.Min+1 && runErr == nil {
